@@ -603,6 +603,9 @@ func report(p Prop, tier string, seed int64, all []CaseResult, inconclusive []st
 			fmt.Printf("KNOWN-FINDING: property=%s %s (%s; pinned witness %s still fails: %s)\n", p.ID(), f.What, f.ID, f.Witness, strings.ReplaceAll(w, "\n", " / "))
 		} else if known[f.ID] > 0 {
 			fmt.Printf("KNOWN-FINDING: property=%s %s (%s; seen %d times this run)\n", p.ID(), f.What, f.ID, known[f.ID])
+		} else if f.Witness != "" && witnessed != nil {
+			// never silently: a witness that stopped failing means the finding (and its fence) needs review
+			inconclusive = append(inconclusive, fmt.Sprintf("pinned witness %s of recorded finding %s did not reproduce in this run; its fence is still active", f.Witness, f.ID))
 		}
 	}
 	for _, l := range lines {
